@@ -17,8 +17,9 @@ let () =
            | None -> "nokind\t-\t"
            | Some h ->
              (try
+                Proto.last_taint := "";
                 let o = h (Array.sub fields 1 (Array.length fields - 1)) impl in
-                o.Proto.model ^ "\t" ^ o.Proto.spec ^ "\t" ^ o.Proto.cls
+                o.Proto.model ^ "\t" ^ o.Proto.spec ^ "\t" ^ o.Proto.cls ^ "\t" ^ !Proto.last_taint
               with e -> "driver-exn:" ^ Printexc.to_string e ^ "\t-\t") in
        Buffer.add_string buf out; Buffer.add_char buf '\n'
      done
